@@ -1,5 +1,9 @@
 """Property -> rules.  A rule that is a necessary condition of several properties is run by each of them."""
 from . import rules_proto as RP
+from . import rules_locks as RL
+from . import rules_lw as RW
+from . import rules_qd as RQ
+from . import rules_guard as RG
 
 ASSUMPTIONS = [
     "rustc's MIR construction, type checking and callee resolution (facts are read from the compiler's own built MIR)",
@@ -53,7 +57,7 @@ prop('C01',
       'a suspended job goes back to the queue before any release (TOK-requeue)'],
      ['that the abstraction\'s transitions are the only way threads interleave (trusted: all accesses go through Mutex<JobQueueCore>)',
       'overlap of a completed future_sync user future\'s destructor with the next operation'],
-     [(RP.tok_exec, None), (RP.pa_rules, {'PA-excl', 'PA-stuck', 'PA'}), (RP.tok_requeue, None)])
+     [(RP.tok_exec, None), (RP.pa_rules, {'PA-excl', 'PA-stuck', 'PA'}), (RP.tok_requeue, None), (RQ.qd_queue, None)])
 
 prop('C03',
      'Static structural rules: an acquired token is always released or handed on (TOK-leak, globally PA-stuck); every owner release to '
@@ -62,7 +66,7 @@ prop('C03',
      ['token released/handed on on every path (TOK-leak, PA-stuck)', 'Idle release followed by reschedule or made under the empty test (TOK-resched, TOK-resched-body)',
       'Pending implies in the schedule and a thread asked (TOK-pending)', 'no job dropped while suspended (TOK-requeue)'],
      ['that a woken pool thread is eventually scheduled by the OS', 'quiescence of a whole program'],
-     [(RP.tok_leak, None), (RP.pa_rules, {'PA-stuck', 'PA'}), (RP.tok_resched, None), (RP.tok_pending, None), (RP.tok_requeue, None)])
+     [(RP.tok_leak, None), (RP.pa_rules, {'PA-stuck', 'PA'}), (RP.tok_resched, None), (RP.tok_pending, None), (RP.tok_requeue, None), (RQ.qd_queue, None), (RQ.qd_schedule, None), (RQ.qd_once, None), (RL.try_rule, None)])
 
 prop('C09',
      'Static structural rules: a Busy outcome of try_sync has written nothing (every path to Err(Busy) leaves the token untouched: TOK-leak), '
@@ -72,8 +76,54 @@ prop('C09',
      ['"succeeds once quiescent" as a statement about time'],
      [(RP.tok_leak, None), (RP.tr_sibling, None), (RP.tok_resched, None), (RP.pa_rules, {'PA-stuck', 'PA'}), (RP.tok_exec, None)])
 
+
+prop('C04',
+     'Static structural rules: the sync strategy is chosen in one critical section from the state and waits only when somebody owns or will wake the queue (TR-defer); '
+     'the condition-variable handshake of the blocked caller (CV1: every notifier that can reach the waiter changes the waiter\'s condition under the waiter\'s mutex first; CV2: the wait is re-tested in a loop); '
+     'no lock cycle and nothing foreign or blocking under an internal lock (LO, BL); caller-side execution holds the token (TOK-exec).',
+     ['strategy chosen atomically; waits only when the queue is owned or parked (TR-defer)', 'blocked caller cannot miss its wake-up (CV1, CV2)', 'no lock-order cycle, no blocking/foreign code under an internal lock (LO, BL)',
+      'caller-side execution holds the token (TOK-exec)'],
+     ['termination of the operations ahead; OS fairness', '"from inside a job of a different Desync" is derived from BL (no internal lock is held while a job runs)'],
+     [(RP.tr_defer, None), (RL.cv, None), (RL.lo, None), (RL.bl, None), (RL.lock_classes, None), (RP.tok_exec, None), (RP.tok_resched, None)])
+
+prop('C06',
+     'Static structural rules on the wake-up protocol: from every parked configuration reachable in the extracted protocol, wakers and claimers alone lead back to a running queue (PA-wake); '
+     'the two queue wakers agree on the states both handle (TR-sibling); a job that returned Pending is back on the queue before the queue is parked (TOK-requeue).',
+     ['every parked configuration is resumable by waker/claimer transitions (PA-wake)', 'wakers agree on Running and WaitingForWake (TR-sibling)', 'requeue before parking (TOK-requeue)'],
+     ['"for every position of the wake-up" as executions', 'futures that break the waker contract'],
+     [(RP.pa_rules, {'PA-wake', 'PA'}), (RP.tr_sibling, None), (RP.tok_requeue, None)])
+
+prop('C07',
+     'Static structural rules: result and waker of a scheduler future live under one mutex with check-and-register / set-and-take atomic (LW1, LW2 on SchedulerFutureResult.waker; the owner\'s '
+     'unconditional stores are justified by LW-owner); poll never decides to wait while the queue is Idle or Pending (TR-defer); the polling task drains under the token (TOK-exec, TOK-leak).',
+     ['check-and-register / set-and-take atomic (LW1, LW2, LW-owner)', 'poll never defers on Idle/Pending (TR-defer)', 'poll-side drain holds and releases the token (TOK-exec, TOK-leak)'],
+     ['equality of the delivered value with what the user closure computed', 'ordering of sibling polls as executions'],
+     [(RW.lw, None), (RW.lw_owner, None), (RP.tr_defer, None), (RP.tok_exec, None), (RP.tok_leak, None)])
+
+prop('C10',
+     'Static structural rules: no scheduler-wide lock is held at any job-execution or blocking site (BL), the lock-order graph is acyclic (LO), and the dormant-thread handshake cannot misread a transient lock hold (TRY).',
+     ['no scheduler-wide lock held while a job runs or a thread blocks (BL)', 'lock order acyclic (LO)', 'dormant handshake uses a blocking lock (TRY)'],
+     ['actual parallel progress (liveness); the claim is limited to these structural conditions'],
+     [(RL.bl, None), (RL.lo, None), (RL.try_rule, None), (RL.lock_classes, None)])
+
+prop('C12',
+     'Static structural rules on the pipe stream core: consumer and back-pressure handshakes register/notify atomically (LW1, LW2 on notify and backpressure_release_notify); '
+     'the output buffer is appended by the producer only and taken from the front by the consumer only (QD-pending); wakers are woken outside the lock, no guard lives across an await (BL, AW).',
+     ['consumer and back-pressure handshakes (LW1, LW2)', 'buffer discipline (QD-pending)', 'wakes outside the lock, no guard across await (BL, AW)'],
+     ['"for every buffer depth and interleaving" as executions', 'depth 0 is outside the property\'s range'],
+     [(RW.lw, None), (RQ.qd_pending, None), (RL.bl, None), (RL.aw, None)])
+
 prop('C15',
-     'Static structural rules: nothing leaves the Panicked state in the extracted transition relation (TR-dead).',
-     ['nothing leaves Panicked (TR-dead)'],
+     'Static structural rules: an ActiveQueue guard is live in some frame of every call path to every execution site, so unwinding marks the queue (TOK-guard); its Drop marks only while panicking (AQ-drop); '
+     'nothing leaves Panicked (TR-dead); every scheduling entry point refuses a Panicked queue by panicking, sync_no_panic reports it, Desync::drop uses it while unwinding (ORD-C15-refuse); '
+     'finished pool threads are reaped before a dormant one is looked for (ORD-C15-reap); no user code runs under a scheduler mutex, so a panic cannot poison one (BL).',
+     ['guard covers every execution site (TOK-guard, AQ-drop)', 'nothing leaves Panicked (TR-dead)', 'entry points refuse a panicked queue (ORD-C15-refuse)', 'dead threads reaped (ORD-C15-reap)', 'no user code under scheduler locks (BL)'],
      ['"other objects remain fully usable" as executions'],
-     [(RP.tr_dead, None)])
+     [(RG.tok_guard, None), (RG.aq_drop, None), (RP.tr_dead, None), (RG.c15_refuse, None), (RG.c15_reap, None), (RL.bl, None)])
+
+prop('C16',
+     'Static structural rules: the producer registers notify_stream_closed only after re-reading `closed` in the same critical section, and PipeStream::drop sets `closed` and takes+wakes the slot in one critical section (LW1, LW2); '
+     'the waker woken under the lock is the pipe\'s own (LW-prov), lock order stays acyclic (LO).',
+     ['closed re-read before registering; drop sets closed and wakes in one section (LW1, LW2)', 'provenance of the waker woken under the lock (LW-prov, LO)'],
+     ['drop positions as executions'],
+     [(RW.lw, None), (RW.lw_prov, None), (RL.lo, None)])
